@@ -616,3 +616,55 @@ package s3db
 //@       ite(i1.ModEpochNanos < i2.ModEpochNanos,
 //@           M(absRow(i1.Value.(*v1proto.Row), tm(i1.ModEpochNanos), col), absRow(i2.Value.(*v1proto.Row), tm(i2.ModEpochNanos), col)),
 //@           M(absRow(i2.Value.(*v1proto.Row), tm(i2.ModEpochNanos), col), absRow(i1.Value.(*v1proto.Row), tm(i1.ModEpochNanos), col)))
+
+// ---------------------------------------------------------------------------
+// Scans (property C06). The tree cursor walks a snapshot: seq(snap)[0..n),
+// strictly increasing in key order (/verif/trusted/mast.contracts).
+
+// the key order the tree uses: the *Key Order method = the SQLite comparison
+//@ spec keyOrder(a interface{}, b interface{}) int = sqliteCmpAbs(absKey(a.(*Key).SQLiteValue), absKey(b.(*Key).SQLiteValue))
+//@ spec kcmp(a *Key, b *Key) int = sqliteCmpAbs(absKey(a.SQLiteValue), absKey(b.SQLiteValue))
+//@ spec keyOK(k *Key) bool = k != nil && k.SQLiteValue != nil && keyTyped(int(k.Type)) && imp(k.Type == v1proto.Type_REAL, !isnan(k.Real))
+
+//@ spec snapOf(c *Cursor) int = gf(c.cursor.Cursor, "snap")
+//@ spec posOf(c *Cursor) int = gf(c.cursor.Cursor, "pos")
+//@ spec kAtI(s int, i int) interface{} = iface2(seqKeyTag(s, i), seqKeyBox(s, i))
+//@ spec kAt(s int, i int) *Key = kAtI(s, i).(*Key)
+//@ spec vAt(s int, i int) crdt.Value = iface2(seqValTag(s, i), seqValBox(s, i)).(crdt.Value)
+//@ spec liveAt(s int, i int) bool = vAt(s, i).Value != nil && rowOf(vAt(s, i).Value) != nil && !rowOf(vAt(s, i).Value).Deleted
+
+// every entry of the snapshot is a (*Key, crdt.Value holding nil or *Row) pair
+//@ spec entryShape(s int, i int) bool = imp(0 <= i && i < seqN(s), typeis(kAtI(s, i), *Key) && keyOK(kAt(s, i)) && seqValTag(s, i) == valueTag() &&
+//@     (vAt(s, i).Value == nil || typeis(vAt(s, i).Value, *v1proto.Row)))
+
+// window predicates of a cursor
+//@ spec aboveMin(c *Cursor, k *Key, gt bool) bool = c.min == nil || kcmp(k, c.min) > 0 || (!gt && kcmp(k, c.min) == 0)
+//@ spec belowMax(c *Cursor, k *Key, lt bool) bool = c.max == nil || kcmp(k, c.max) < 0 || (!lt && kcmp(k, c.max) == 0)
+//@ spec cursorOK(c *Cursor) bool = c != nil && c.cursor != nil && c.cursor.Cursor != nil && 0 <= seqN(snapOf(c)) && -1 <= posOf(c) && posOf(c) <= seqN(snapOf(c)) &&
+//@     imp(c.min != nil, keyOK(c.min)) && imp(c.max != nil, keyOK(c.max))
+// a skipped entry is a dead row, or the key excluded by a strict bound
+//@ spec skipOKasc(c *Cursor, s int, i int, gt bool) bool = !liveAt(s, i) || (c.min != nil && gt && kcmp(kAt(s, i), c.min) == 0)
+//@ spec skipOKdesc(c *Cursor, s int, i int, lt bool) bool = !liveAt(s, i) || (c.max != nil && lt && kcmp(kAt(s, i), c.max) == 0)
+
+// Next: advance to the next live row in scan order; no live row inside the
+// window is passed over; the scan ends only at the end of the tree or at the
+// first key beyond the far bound; every loop iteration moves the cursor.
+//@ func (*Cursor).Next
+//@   requires c != nil && imp(!c.eof, cursorOK(c) && ctx != nil)
+//@   requires forall i int :: imp(!c.eof, entryShape(snapOf(c), i))
+//@   modifies c.eof, c.currentKey, c.currentRow, c.gtMin, c.ltMax, gf(c.cursor.Cursor, "pos")
+//@   ensures was-eof: imp(old(c.eof), result == nil && c.eof && c.currentKey == old(c.currentKey) && c.currentRow == old(c.currentRow))
+//@   ensures asc-no-skip: forall i int :: imp(result == nil && !old(c.eof) && !c.desc && old(posOf(c)) <= i && i < ite(c.eof, posOf(c), posOf(c) - 1), skipOKasc(c, snapOf(c), i, old(c.gtMin)))
+//@   ensures asc-row: imp(result == nil && !old(c.eof) && !c.desc && !c.eof, old(posOf(c)) <= posOf(c) - 1 && posOf(c) - 1 < seqN(snapOf(c)) && 0 <= posOf(c) - 1 &&
+//@       c.currentKey == kAt(snapOf(c), posOf(c) - 1) && c.currentRow == rowOf(vAt(snapOf(c), posOf(c) - 1).Value) && liveAt(snapOf(c), posOf(c) - 1) && belowMax(c, c.currentKey, old(c.ltMax)))
+//@   ensures asc-eof: imp(result == nil && !old(c.eof) && !c.desc && c.eof, posOf(c) == seqN(snapOf(c)) || posOf(c) < 0 || !belowMax(c, kAt(snapOf(c), posOf(c)), old(c.ltMax)))
+//@   ensures desc-no-skip: forall i int :: imp(result == nil && !old(c.eof) && c.desc && ite(c.eof, posOf(c), posOf(c) + 1) < i && i <= old(posOf(c)), skipOKdesc(c, snapOf(c), i, old(c.ltMax)))
+//@   ensures desc-row: imp(result == nil && !old(c.eof) && c.desc && !c.eof, posOf(c) + 1 <= old(posOf(c)) && 0 <= posOf(c) + 1 && posOf(c) + 1 < seqN(snapOf(c)) &&
+//@       c.currentKey == kAt(snapOf(c), posOf(c) + 1) && c.currentRow == rowOf(vAt(snapOf(c), posOf(c) + 1).Value) && liveAt(snapOf(c), posOf(c) + 1) && aboveMin(c, c.currentKey, old(c.gtMin)))
+//@   ensures desc-eof: imp(result == nil && !old(c.eof) && c.desc && c.eof, posOf(c) == -1 || posOf(c) >= seqN(snapOf(c)) || !aboveMin(c, kAt(snapOf(c), posOf(c)), old(c.gtMin)))
+//@   ensures fixed: snapOf(c) == old(snapOf(c)) && c.min == old(c.min) && c.max == old(c.max) && c.desc == old(c.desc)
+//@   loop 1 invariant cursorOK(c) && !c.eof && c.currentKey == old(c.currentKey) && c.currentRow == old(c.currentRow) && imp(c.gtMin, old(c.gtMin)) && imp(c.ltMax, old(c.ltMax)) && snapOf(c) == old(snapOf(c)) && !old(c.eof)
+//@   loop 1 invariant imp(!c.desc, old(posOf(c)) <= posOf(c)) && imp(c.desc, posOf(c) <= old(posOf(c)))
+//@   loop 1 invariant forall i int :: imp(!c.desc && old(posOf(c)) <= i && i < posOf(c), skipOKasc(c, snapOf(c), i, old(c.gtMin)))
+//@   loop 1 invariant forall i int :: imp(c.desc && posOf(c) < i && i <= old(posOf(c)), skipOKdesc(c, snapOf(c), i, old(c.ltMax)))
+//@   loop 1 decreases ite(c.desc, posOf(c) + 2, seqN(snapOf(c)) - posOf(c) + 1)
